@@ -11,7 +11,16 @@
 //       `relkf-fullring <recipe> <k>`  rotation of an event in which all 256 wires carry data (F3)
 //       `relkf-padtie <recipe>`        mirror of an event with two pad hits of bit-identical amplitude in one
 //                                      time bin of one selected column (F6)
-//    The tag is decided by the recogniser, not by the generator's intention.
+//       `relkf-illcond <recipe>`       mirror of an event with a pad hit whose middle^2/(first*last) - 1 < THETA in a
+//                                      selected column (F11)
+//    The tag is decided by the recogniser, not by the generator's intention; a `relkf-` line whose event is NOT in
+//    the class it names prints `fails not-in-class ...`.  Each class has ONE documented failure prefix
+//    (`fails rotation` for F3, `fails mirror` for F6 and F11); every other failure of such a line has a different
+//    prefix (`fails panic:`, `fails far-from-seam`, `fails pairing-lost`, `fails avalanche-count`, `fails pairing`,
+//    `fails z-far`).
+//  * `c13-probe-mir <recipe>`, `c13-probe-rot <recipe> <k>`  measurement aids, never generated: the numbers behind
+//    THETA and FAR (see the comments there) can be reproduced through `vphys obs`.
+// Recipe: n<samples>/w<start>+<len>,../h<wire>@<t0>*<amp bits>,../p<col>.<row>@<t0>*<amp bits>,..[/l<wire>=<len>,..]
 use crate::util::*;
 use alpha_g_detector::alpha16::aw_map::TpcWirePosition;
 use alpha_g_detector::alpha16::ADC32_RATE;
@@ -38,6 +47,8 @@ pub struct Ev {
     runs: Vec<(usize, usize)>,             // present wires: cyclic runs (start, len)
     hits: Vec<(usize, usize, f64)>,        // wire pulses: (wire, t0, amplitude); induce on present neighbours
     pads: Vec<(usize, usize, usize, f64)>, // pad pulses: (column, row, t0, amplitude); a pad is occupied iff listed
+    lens: Vec<(usize, usize)>,             // per-wire signal length overrides (wire, length): the signal of that wire
+                                           // is cut / zero-extended to `length` samples (optional 5th recipe part `l..`)
 }
 
 fn fhex(x: f64) -> String {
@@ -59,17 +70,22 @@ impl Ev {
     }
     fn recipe(&self) -> String {
         let j = |v: Vec<String>| if v.is_empty() { "-".to_string() } else { v.join(",") };
-        format!(
+        let base = format!(
             "n{}/w{}/h{}/p{}",
             self.n,
             j(self.runs.iter().map(|(s, l)| format!("{s}+{l}")).collect()),
             j(self.hits.iter().map(|(w, t, a)| format!("{w}@{t}*{}", fhex(*a))).collect()),
             j(self.pads.iter().map(|(c, r, t, a)| format!("{c}.{r}@{t}*{}", fhex(*a))).collect())
-        )
+        );
+        if self.lens.is_empty() {
+            base
+        } else {
+            format!("{base}/l{}", j(self.lens.iter().map(|(w, l)| format!("{w}={l}")).collect()))
+        }
     }
     fn parse(s: &str) -> Option<Ev> {
         let parts: Vec<&str> = s.split('/').collect();
-        if parts.len() != 4 {
+        if parts.len() != 4 && parts.len() != 5 {
             return None;
         }
         let list = |p: &str, pre: char| -> Option<Vec<String>> {
@@ -95,7 +111,18 @@ impl Ev {
             let (t, a) = rest.split_once('*')?;
             pads.push((c.parse().ok()?, r.parse().ok()?, t.parse().ok()?, unfhex(a)));
         }
-        Some(Ev { n, runs, hits, pads })
+        let mut lens = vec![];
+        if parts.len() == 5 {
+            for e in list(parts[4], 'l')? {
+                let (w, l) = e.split_once('=')?;
+                let (w, l): (usize, usize) = (w.parse().ok()?, l.parse().ok()?);
+                if w >= NW || l > 4096 {
+                    return None;
+                }
+                lens.push((w, l));
+            }
+        }
+        Some(Ev { n, runs, hits, pads, lens })
     }
     /// rotation by k pad columns = 8k wires
     fn rotate(&self, k: usize) -> Ev {
@@ -104,6 +131,7 @@ impl Ev {
             runs: self.runs.iter().map(|&(s, l)| ((s + 8 * k) % NW, l)).collect(),
             hits: self.hits.iter().map(|&(w, t, a)| ((w + 8 * k) % NW, t, a)).collect(),
             pads: self.pads.iter().map(|&(c, r, t, a)| ((c + k) % NCOLS, r, t, a)).collect(),
+            lens: self.lens.iter().map(|&(w, l)| ((w + 8 * k) % NW, l)).collect(),
         }
     }
     /// mirror about the mid-plane: row r -> 575 - r
@@ -113,6 +141,7 @@ impl Ev {
             runs: self.runs.clone(),
             hits: self.hits.clone(),
             pads: self.pads.iter().map(|&(c, r, t, a)| (c, NROWS - 1 - r, t, a)).collect(),
+            lens: self.lens.clone(),
         }
     }
     /// calibrated signals: every float operation is done in recipe order, so a rotated/mirrored recipe gives
@@ -138,6 +167,10 @@ impl Ev {
                         s[t0 + k] += f * r;
                     }
                 }
+            }
+            // per-wire length: the LAST override of a wire counts (cut or zero-extended)
+            if let Some(&(_, l)) = self.lens.iter().rev().find(|(lw, _)| *lw == w) {
+                s.resize(l, 0.0);
             }
             wires.push((w, s));
         }
@@ -230,6 +263,31 @@ struct Tables {
     hook_avalanches: Vec<Canon>,
     /// two pad hits of bit-identical amplitude in one time bin of one selected column
     pad_tie: bool,
+    /// smallest conditioning number middle^2 / (first * last) - 1 over the pad hits of the selected columns,
+    /// evaluated in binary64 exactly as matching.rs evaluates the argument of its first `ln` (inf: no pad hit)
+    cond_min: f64,
+    /// the pad hits of the selected columns: (time bin, amplitude bits, z)
+    pad_hits: Vec<(usize, u64, f64)>,
+    /// largest deconvolved wire amplitude of the event (the scale of its wire hits)
+    wmax: f64,
+}
+
+/// Class `centroid_ill_conditioned` (F11): some pad hit of a selected column has cond = middle^2/(first*last) - 1
+/// < THETA.  The mirror discrepancy is |z + z'| = (PAD_PITCH_Z / 2) * |ln fl(l/f) + ln fl(f/l)| / ln(1 + cond):
+/// sigma^2 is bit-identical in both orientations (f * l commutes), but the two quotients are rounded independently
+/// (absolute error <= 2^-53 above 1, <= 2^-54 below 1), which near 1 is an ABSOLUTE error of their logarithms; it
+/// is divided by ln(1 + cond) ~ cond.  Hence |z + z'| <= 0.002 * 1.5 * 2^-53 / cond + 6e-16 m, and 1e-9 m is
+/// guaranteed for cond >= 3.33e-10 (explained on a witness in coq/Signal/Avalanches_float_proofs.v, section 5).
+/// MEASURED on the unchanged tree (120 000 single-hit events, neighbour/middle = 1 - eps, eps log-uniform in
+/// 1e-16..1e-3 and a targeted sample with cond in 1e-10..6.3e-10): largest |z + z'| * cond = 2.23e-19 m (= 0.002 *
+/// 2^-53); the 1e-9 m tolerance is missed for cond up to 2.2214e-10 and never above (largest discrepancy seen
+/// 2.5e-4 m at cond ~ 1e-15); with both neighbours at (1 - eps) * middle, cond ~ 2 eps, i.e. the tolerance holds
+/// for eps > 1.2e-10.  One neighbour alone close to the middle (the other at 0.2..0.6) is well conditioned.
+/// THETA is set just above the measured boundary and above the analytic one.
+const THETA: f64 = 3.4e-10; // bits 3df75d57df90fadf; the same constant as Signal/Avalanches.v THETA
+
+fn cond_number(f: f64, m: f64, l: f64) -> f64 {
+    m.powi(2) / (f * l) - 1.0
 }
 
 /// centroid z of an isolated three-row pattern, from the implementation (None: not a pad hit)
@@ -274,6 +332,8 @@ fn tables(ev: &MainEvent) -> Tables {
     // centroid table + tie recogniser, on the selected columns
     let mut z = BTreeMap::new();
     let mut pad_tie = false;
+    let mut cond_min = f64::INFINITY;
+    let mut pad_hits = vec![];
     let empty: Vec<f64> = Vec::new();
     for &c in &columns {
         let rows: BTreeSet<usize> = pin.keys().filter(|k| k.0 == c).map(|k| k.1).collect();
@@ -295,6 +355,8 @@ fn tables(ev: &MainEvent) -> Tables {
                 let l = lst.get(t).copied().unwrap_or(0.0);
                 if let Some(zb) = centroid(row, f, m, l) {
                     z.insert((row, f.to_bits(), m.to_bits(), l.to_bits()), zb);
+                    cond_min = cond_min.min(cond_number(f, m, l));
+                    pad_hits.push((t, m.to_bits(), f64::from_bits(zb)));
                     let e = amps_at_t.entry(t).or_default();
                     if e.contains(&m.to_bits()) {
                         pad_tie = true;
@@ -319,11 +381,12 @@ fn tables(ev: &MainEvent) -> Tables {
         let wi: [Vec<f64>; 8] = wire_inputs[wr].to_vec().try_into().unwrap();
         hook_avalanches.extend(verif::match_column_inputs(idx, &wi, &col).iter().map(canon));
     }
-    Tables { ranges, d, p, z, hook_avalanches, pad_tie }
+    let wmax = wire_inputs.iter().flatten().copied().fold(0.0f64, f64::max);
+    Tables { ranges, d, p, z, hook_avalanches, pad_tie, cond_min, pad_hits, wmax }
 }
 
-fn observe_av(e: &Ev) -> (String, String, bool, bool) {
-    // returns (table part of the case line, observation, nontrivial, pad_tie)
+fn observe_av(e: &Ev) -> (String, String, bool, bool, f64) {
+    // returns (table part of the case line, observation, nontrivial, pad_tie, cond_min)
     let e2 = e.clone();
     let r = catch(move || {
         let ev = e2.event();
@@ -332,7 +395,7 @@ fn observe_av(e: &Ev) -> (String, String, bool, bool) {
         (av, tb)
     });
     let Some((av, tb)) = r else {
-        return ("W:- D:- P:- Z:-".to_string(), "panic".to_string(), false, false);
+        return ("W:- D:- P:- Z:-".to_string(), "panic".to_string(), false, false, f64::INFINITY);
     };
     let present = e.present();
     let w = join((0..NW).filter(|i| present[*i]).map(|i| i.to_string()).collect());
@@ -373,32 +436,55 @@ fn observe_av(e: &Ev) -> (String, String, bool, bool) {
     if tb.hook_avalanches != av {
         obs.push_str(" hooks-differ");
     }
-    (format!("W:{w} D:{d} P:{p} Z:{z}"), obs, !av.is_empty(), tb.pad_tie)
+    (format!("W:{w} D:{d} P:{p} Z:{z}"), obs, !av.is_empty(), tb.pad_tie, tb.cond_min)
 }
 
 // ------------------------------------------------------------------------------------------------
 // pairwise relations on the implementation
 // ------------------------------------------------------------------------------------------------
-fn run_event(e: &Ev) -> Option<Vec<Canon>> {
-    let e = e.clone();
-    catch(move || e.event().avalanches().iter().map(canon).collect())
+/// catch_unwind keeping the panic message (one line)
+fn catch_msg<T>(f: impl FnOnce() -> T + std::panic::UnwindSafe) -> Result<T, String> {
+    std::panic::catch_unwind(f).map_err(|e| {
+        let m = if let Some(s) = e.downcast_ref::<&str>() {
+            s.to_string()
+        } else if let Some(s) = e.downcast_ref::<String>() {
+            s.clone()
+        } else {
+            "?".to_string()
+        };
+        m.replace(['\n', '\r'], " ")
+    })
 }
 
-fn rel_rot(e: &Ev, k: usize) -> String {
-    let (Some(a), Some(b)) = (run_event(e), run_event(&e.rotate(k))) else {
-        return "fails panic".to_string();
-    };
-    let mut want: Vec<Canon> = a.iter().map(|c| ((c.0 + 8 * k) % NW, c.1, c.2, c.3, c.4)).collect();
-    let mut got = b;
-    want.sort();
-    got.sort();
-    if want == got {
-        return "holds".to_string();
+fn run_event(e: &Ev) -> Result<Vec<Canon>, String> {
+    let e = e.clone();
+    catch_msg(move || e.event().avalanches().iter().map(canon).collect())
+}
+
+/// what the recognisers say about an event (computed from the event through the hooks, never from the generator)
+#[derive(Clone, Debug)]
+struct Class {
+    tie: bool,
+    cond_min: f64,
+    pad_hits: Vec<(usize, u64, f64)>,
+    wmax: f64,
+}
+impl Class {
+    fn illcond(&self) -> bool {
+        self.cond_min < THETA
     }
+}
+fn classify(e: &Ev) -> Option<Class> {
+    let e2 = e.clone();
+    let tb = catch(move || tables(&e2.event()))?;
+    Some(Class { tie: tb.pad_tie, cond_min: tb.cond_min, pad_hits: tb.pad_hits, wmax: tb.wmax })
+}
+
+fn rot_detail(k: usize, want: &[Canon], got: &[Canon]) -> String {
     let only_want: Vec<&Canon> = want.iter().filter(|c| !got.contains(c)).collect();
     let only_got: Vec<&Canon> = got.iter().filter(|c| !want.contains(c)).collect();
     format!(
-        "fails rotation k={k}: {} avalanches expected, {} found; expected-only {} e.g. {}; found-only {} e.g. {}",
+        "k={k}: {} avalanches expected, {} found; expected-only {} e.g. {}; found-only {} e.g. {}",
         want.len(),
         got.len(),
         only_want.len(),
@@ -408,9 +494,104 @@ fn rel_rot(e: &Ev, k: usize) -> String {
     )
 }
 
+/// rotation relation, every event outside the class full_ring_256: bit-identical multisets
+fn rel_rot(e: &Ev, k: usize) -> String {
+    let (a, b) = match (run_event(e), run_event(&e.rotate(k))) {
+        (Ok(a), Ok(b)) => (a, b),
+        (Err(m), _) | (_, Err(m)) => return format!("fails panic:{m}"),
+    };
+    let mut want: Vec<Canon> = a.iter().map(|c| ((c.0 + 8 * k) % NW, c.1, c.2, c.3, c.4)).collect();
+    let mut got = b;
+    want.sort();
+    got.sort();
+    if want == got {
+        return "holds".to_string();
+    }
+    format!("fails rotation {}", rot_detail(k, &want, &got))
+}
+
+// Class full_ring_256 (F3).  The documented failure: the one block of a full ring always starts at wire 0, so the
+// banded (non-circulant) solve sees the 255/0 seam as an edge; amplitudes near the seam change and rounding-level
+// residues of the cross-talk removal appear or disappear as extra avalanches anywhere on the ring.
+// MEASURED on the unchanged tree (two samples, 1600 full-ring events x 31 rotations = 49 600 pairs, hits at and away
+// from the seam, stray pads; reproduce with `c13-probe-rot`): largest |difference of wire amplitude| / (largest deconvolved wire
+// amplitude of the event) between an avalanche and its rotated counterpart (a missing counterpart counts with its
+// whole amplitude), by distance d of the wire from the nearer of the two seams (the seam of the event and the seam
+// of the rotated event):
+//    d=0: 5e-1   1: 2e-1   2: 1e-1   3: 5e-2   4: 1e-2   5: 5e-3   6: 2e-3   7: 4e-4   8: 4e-4   9: 6e-5  10: 8e-5
+//    11: 3e-5  12: 2e-6  13: 1e-6  14: 1e-6  15: 1e-7  16: 5e-8  17..18: 7e-8  19..20: 9e-9  21..22: 6e-10
+//    23: 2e-10  24: 1e-10  25: 5e-11  26: 2e-11  27..28: 3e-12  29..30: 5e-13  31..35: 1e-13..1e-15  36 and more: <= 3e-16
+// The edge effect decays geometrically (about a factor 2.5 per wire) and is NOT below 1e-9 at 6 wires (the
+// statement "more than 5 wires from the seam agree to 1e-9" is false: 2e-3 there); z and pad amplitude of
+// rounding-level avalanches (wire amplitude ~1e-16 of the largest) change at any distance because such residues
+// re-pair with stray pad hits.  The strongest relation found to hold, checked on every full-ring line, three tiers
+// by distance from both seams, amplitudes relative to the event's largest deconvolved wire amplitude:
+//    more than  5 wires: an avalanche above 2e-2 has a counterpart (same wire, same time bin) within 2e-2;
+//    more than 12 wires: an avalanche above 1e-4 has a counterpart within 1e-4;
+//    more than 24 wires: an avalanche above 1e-6 has a counterpart within 1e-9 with bit-identical z and pad amplitude.
+// (margins over the measured envelope: 10x, 100x, 20x; no false alarm on the 49 600 pairs.)  A violation prints `fails far-from-seam`, a panic
+// `fails panic:<message>`; only the documented kind prints `fails rotation`.
+const FAR: [(usize, f64, f64, bool); 3] = [(24, 1e-6, 1e-9, true), (12, 1e-4, 1e-4, false), (5, 2e-2, 2e-2, false)];
+
+fn rel_rot_fullring(e: &Ev, k: usize) -> String {
+    if !e.present().iter().all(|x| *x) {
+        return "fails not-in-class full_ring_256".to_string();
+    }
+    let (a, b) = match (run_event(e), run_event(&e.rotate(k))) {
+        (Ok(a), Ok(b)) => (a, b),
+        (Err(m), _) | (_, Err(m)) => return format!("fails panic:{m}"),
+    };
+    let mut want: Vec<Canon> = a.iter().map(|c| ((c.0 + 8 * k) % NW, c.1, c.2, c.3, c.4)).collect();
+    let mut got = b;
+    want.sort();
+    got.sort();
+    if want == got {
+        return "holds".to_string();
+    }
+    let Some(wmax) = classify(e).map(|c| c.wmax) else { return "fails panic:hooks".to_string() };
+    // distance (in wires) from the nearer seam: wires 255/0 of the rotated event, wires 255/0 of the event
+    let dist = |w: usize| {
+        let o = (w + NW - (8 * k) % NW) % NW;
+        w.min(NW - 1 - w).min(o.min(NW - 1 - o))
+    };
+    let check = |from: &[Canon], to: &[Canon], side: &str| -> Option<String> {
+        for c in from {
+            if c.0 >= NW {
+                return Some(format!("{side} avalanche {} is not on a wire", canon_str(c)));
+            }
+            let (d, x) = (dist(c.0), f64::from_bits(c.3));
+            let partner = to.iter().find(|g| g.0 == c.0 && g.1 == c.1);
+            let dy = partner.map(|g| (x - f64::from_bits(g.3)).abs()).unwrap_or(x.abs());
+            let Some(&(_, signif, tol, exact)) = FAR.iter().find(|t| d > t.0) else { continue };
+            if !(x > signif * wmax) {
+                continue;
+            }
+            let same = !exact || partner.map(|g| g.2 == c.2 && g.4 == c.4).unwrap_or(false);
+            if !same || !(dy <= tol * wmax) {
+                return Some(format!(
+                    "{side} {} at {d} wires from the seam: counterpart {}",
+                    canon_str(c),
+                    partner.map(canon_str).unwrap_or("-".into())
+                ));
+            }
+        }
+        None
+    };
+    if let Some(m) = check(&want, &got, "expected").or_else(|| check(&got, &want, "found")) {
+        return format!("fails far-from-seam k={k}: {m}");
+    }
+    format!("fails rotation {}", rot_detail(k, &want, &got))
+}
+
+/// mirror relation, every event outside the classes pad_amplitude_tie and centroid_ill_conditioned
 fn rel_mir(e: &Ev) -> String {
-    let (Some(a), Some(b)) = (run_event(e), run_event(&e.mirror())) else {
-        return "fails panic".to_string();
+    rel_mir_tol(e, 1e-9)
+}
+
+fn rel_mir_tol(e: &Ev, tol: f64) -> String {
+    let (a, b) = match (run_event(e), run_event(&e.mirror())) {
+        (Ok(a), Ok(b)) => (a, b),
+        (Err(m), _) | (_, Err(m)) => return format!("fails panic:{m}"),
     };
     let mut want = a;
     let mut got = b;
@@ -418,12 +599,17 @@ fn rel_mir(e: &Ev) -> String {
     want.sort_by_key(|c| (c.0, c.1, c.3, c.4));
     got.sort_by_key(|c| (c.0, c.1, c.3, c.4));
     if want.len() != got.len() {
-        return format!("fails mirror: {} avalanches expected, {} found", want.len(), got.len());
+        return format!("fails avalanche-count: {} avalanches expected, {} found", want.len(), got.len());
+    }
+    for (w, g) in want.iter().zip(&got) {
+        let same = w.0 == g.0 && w.1 == g.1 && w.3 == g.3 && w.4 == g.4;
+        if !same {
+            return format!("fails pairing: {} mirrored gives {}", canon_str(w), canon_str(g));
+        }
     }
     for (w, g) in want.iter().zip(&got) {
         let (zw, zg) = (f64::from_bits(w.2), f64::from_bits(g.2));
-        let same = w.0 == g.0 && w.1 == g.1 && w.3 == g.3 && w.4 == g.4;
-        if !same || !((zw + zg).abs() <= 1e-9) {
+        if !((zw + zg).abs() <= tol) {
             return format!(
                 "fails mirror: {} mirrored gives {} (z {:e} -> {:e})",
                 canon_str(w),
@@ -434,6 +620,138 @@ fn rel_mir(e: &Ev) -> String {
         }
     }
     "holds".to_string()
+}
+
+// Class centroid_ill_conditioned (F11).  The documented failure: same wires, time bins and amplitudes, z of the
+// ill-conditioned hits not negated within 1e-9 m; |z + z'| stays below one pad pitch plus a margin (each z is
+// within about half a pitch of its row centre).  Anything else (count, pairing, a z further off) has another prefix.
+const ILL_MAX: f64 = 6.0e-3;
+fn rel_mir_illcond(e: &Ev) -> String {
+    match classify(e) {
+        None => return "fails panic:hooks".to_string(),
+        Some(c) if !c.illcond() => return "fails not-in-class centroid_ill_conditioned".to_string(),
+        _ => {}
+    }
+    let o = rel_mir_tol(e, 1e-9);
+    if o.starts_with("fails mirror") && !rel_mir_tol(e, ILL_MAX).starts_with("holds") {
+        return o.replacen("fails mirror", "fails z-far", 1);
+    }
+    o
+}
+
+// Class pad_amplitude_tie (F6).  The documented failure: which of the tied pad hits a wire hit is paired with
+// flips.  Preserved all the same (else `fails pairing-lost`): the multiset of (wire, t, wire amplitude); the
+// multiset of (t, pad amplitude); every avalanche of the mirrored event carries the mirrored z of a pad hit of
+// the original event with that time bin and amplitude; and when no pad hit is left unpaired in either event,
+// the multiset of (t, pad amplitude, |z|).
+fn rel_mir_padtie(e: &Ev) -> String {
+    let cl = match classify(e) {
+        None => return "fails panic:hooks".to_string(),
+        Some(c) if !c.tie => return "fails not-in-class pad_amplitude_tie".to_string(),
+        Some(c) => c,
+    };
+    let ztol = if cl.illcond() { ILL_MAX } else { 1e-9 };
+    let (a, b) = match (run_event(e), run_event(&e.mirror())) {
+        (Ok(a), Ok(b)) => (a, b),
+        (Err(m), _) | (_, Err(m)) => return format!("fails panic:{m}"),
+    };
+    let key_w = |v: &[Canon]| {
+        let mut k: Vec<(usize, usize, u64)> = v.iter().map(|c| (c.0, c.1, c.3)).collect();
+        k.sort();
+        k
+    };
+    let key_p = |v: &[Canon]| {
+        let mut k: Vec<(usize, u64)> = v.iter().map(|c| (c.1, c.4)).collect();
+        k.sort();
+        k
+    };
+    if key_w(&a) != key_w(&b) {
+        return format!("fails pairing-lost wire side: {} avalanches, mirrored {}", a.len(), b.len());
+    }
+    if key_p(&a) != key_p(&b) {
+        return "fails pairing-lost pad side".to_string();
+    }
+    for g in &b {
+        let zg = f64::from_bits(g.2);
+        if !cl.pad_hits.iter().any(|(t, m, z)| *t == g.1 && *m == g.4 && (z + zg).abs() <= ztol) {
+            return format!("fails pairing-lost: {} is not a mirrored pad hit of the event", canon_str(g));
+        }
+    }
+    let key_z = |v: &[Canon]| {
+        let mut k: Vec<(usize, u64, f64)> = v.iter().map(|c| (c.1, c.4, f64::from_bits(c.2).abs())).collect();
+        k.sort_by(|x, y| x.partial_cmp(y).unwrap());
+        k
+    };
+    let (za, zb) = (key_z(&a), key_z(&b));
+    let z_same = za.iter().zip(&zb).all(|(x, y)| (x.2 - y.2).abs() <= ztol);
+    // every pad hit of a (column, t) is paired iff the event has as many avalanches as usable pad hits; decided
+    // per time bin and amplitude on the multiset: a pad hit left over can legitimately replace its tied partner
+    let all_paired = {
+        let mut used: Vec<(usize, u64)> = a.iter().map(|c| (c.1, c.4)).collect();
+        used.sort();
+        let mut avail: Vec<(usize, u64)> = cl
+            .pad_hits
+            .iter()
+            .filter(|(t, m, _)| used.binary_search(&(*t, *m)).is_ok())
+            .map(|(t, m, _)| (*t, *m))
+            .collect();
+        avail.sort();
+        avail == used
+    };
+    if all_paired && !z_same {
+        return "fails pairing-lost |z| multiset".to_string();
+    }
+    rel_mir_tol(e, 1e-9)
+}
+
+/// measurement aid: `cond_min max|z+z'|` of an event (the numbers behind THETA)
+fn probe_mir(e: &Ev) -> String {
+    let Some(c) = classify(e) else { return "panic".into() };
+    let (Ok(mut a), Ok(mut b)) = (run_event(e), run_event(&e.mirror())) else { return "panic".into() };
+    a.sort_by_key(|c| (c.0, c.1, c.3, c.4));
+    b.sort_by_key(|c| (c.0, c.1, c.3, c.4));
+    let d = a.iter().zip(&b).map(|(w, g)| (f64::from_bits(w.2) + f64::from_bits(g.2)).abs()).fold(0.0f64, f64::max);
+    let e2 = e.clone();
+    let keys = catch(move || tables(&e2.event()).z.keys().map(|k| format!("{}:{:016x}:{:016x}:{:016x}", k.0, k.1, k.2, k.3)).collect::<Vec<_>>())
+        .unwrap_or_default();
+    format!("{:e} {:e} {} {} {}", c.cond_min, d, a.len(), b.len(), join(keys))
+}
+
+/// measurement aid: per avalanche of the rotated full-ring event present in both, `distance-to-nearest-seam
+/// relative-wire-amplitude-difference relative-size z-same pad-same`; unmatched ones as `only-want/only-got`
+fn probe_rot(e: &Ev, k: usize) -> String {
+    let (Ok(a), Ok(b)) = (run_event(e), run_event(&e.rotate(k))) else { return "panic".into() };
+    let want: Vec<Canon> = a.iter().map(|c| ((c.0 + 8 * k) % NW, c.1, c.2, c.3, c.4)).collect();
+    let amax = classify(e).map(|c| c.wmax).unwrap_or(0.0);
+    let dist = |w: usize| {
+        let o = (w + NW - 8 * k % NW) % NW;
+        let d1 = w.min(NW - 1 - w);
+        let d2 = o.min(NW - 1 - o);
+        d1.min(d2)
+    };
+    let mut out = vec![];
+    for w in &want {
+        match b.iter().find(|g| g.0 == w.0 && g.1 == w.1) {
+            Some(g) => {
+                let (x, y) = (f64::from_bits(w.3), f64::from_bits(g.3));
+                out.push(format!(
+                    "m:{}:{:e}:{:e}:{}:{}",
+                    dist(w.0),
+                    (x - y).abs() / x.abs().max(y.abs()),
+                    x.max(y) / amax,
+                    (w.2 == g.2) as u8,
+                    (w.4 == g.4) as u8
+                ));
+            }
+            None => out.push(format!("w:{}:{:e}", dist(w.0), f64::from_bits(w.3) / amax)),
+        }
+    }
+    for g in &b {
+        if !want.iter().any(|w| g.0 == w.0 && g.1 == w.1) {
+            out.push(format!("g:{}:{:e}", dist(g.0), f64::from_bits(g.3) / amax));
+        }
+    }
+    join(out)
 }
 
 // ------------------------------------------------------------------------------------------------
@@ -452,6 +770,63 @@ fn add_hit(r: &mut Rng, e: &mut Ev, w: usize, t0: usize, a: f64, row: usize) {
     e.pads.push((c, row - 1, t0 - 1, pa * f));
     e.pads.push((c, row, t0 - 1, pa));
     e.pads.push((c, row + 1, t0 - 1, pa * l));
+}
+
+/// a wire hit whose pad pattern has one or both neighbours at (1 - eps) * middle, eps log-uniform in 1e-16..1e-3:
+/// the region where the centroid is ill-conditioned (add_hit keeps the neighbours at 0.2..0.6 of the middle)
+fn add_hit_near(r: &mut Rng, e: &mut Ev, w: usize, t0: usize, a: f64, row: usize) {
+    e.hits.push((w, t0, a));
+    let c = verif::wire_to_pad_column(w);
+    let pa = amp(r, 0.5, 1.5) * a;
+    let eps = |r: &mut Rng| 10f64.powf(amp(r, -16.0, -3.0));
+    let e1 = eps(r);
+    let (f, l) = match r.below(4) {
+        0 => (1.0 - e1, 1.0 - e1),                       // both, symmetric
+        1 => (1.0 - e1, 1.0 - e1 * amp(r, 0.5, 2.0)),    // both, same order of magnitude
+        2 => (1.0 - e1, 1.0 - eps(r)),                   // both, independent
+        _ => {
+            // one neighbour only
+            if r.chance(1, 2) {
+                (1.0 - e1, amp(r, 0.2, 0.6))
+            } else {
+                (amp(r, 0.2, 0.6), 1.0 - e1)
+            }
+        }
+    };
+    e.pads.push((c, row - 1, t0 - 1, pa * f));
+    e.pads.push((c, row, t0 - 1, pa));
+    e.pads.push((c, row + 1, t0 - 1, pa * l));
+}
+
+/// give some present wires a signal length of their own (cut or zero-extended): exercises the `max` of
+/// problem_dimensions and the zero padding of y_matrix (wires.rs:196-224), and t_max of match_column_inputs
+fn vary_lengths(r: &mut Rng, e: &mut Ev) {
+    let pl = present_list(e);
+    if pl.is_empty() {
+        return;
+    }
+    let k = r.range(1, 4) as usize;
+    for _ in 0..k {
+        let w = r.pick(&pl);
+        let len = match r.below(6) {
+            0 => r.below(2) as usize, // an empty or one-sample signal
+            1 => e.n - 1,
+            2 => e.n + 1,
+            3 => e.n + r.range(2, 12) as usize,
+            _ => r.range(2, (e.n - 1) as u64) as usize,
+        };
+        e.lens.push((w, len));
+    }
+    // every wire of one block shorter than n: the block's max is not n
+    if r.chance(1, 4) && !e.runs.is_empty() {
+        let (s0, l0) = e.runs[r.below(e.runs.len() as u64) as usize];
+        if l0 <= 12 {
+            let base = r.range(20, (e.n - 1) as u64) as usize;
+            for j in 0..l0 {
+                e.lens.push(((s0 + j) % NW, base - r.below(4) as usize));
+            }
+        }
+    }
 }
 
 fn present_list(e: &Ev) -> Vec<usize> {
@@ -501,7 +876,7 @@ fn sprinkle(r: &mut Rng, e: &mut Ev, nhits: usize) {
 }
 
 fn new_ev(r: &mut Rng) -> Ev {
-    Ev { n: r.range(40, 96) as usize, runs: vec![], hits: vec![], pads: vec![] }
+    Ev { n: r.range(40, 96) as usize, runs: vec![], hits: vec![], pads: vec![], lens: vec![] }
 }
 
 fn ev_random(r: &mut Rng) -> Ev {
@@ -515,6 +890,9 @@ fn ev_random(r: &mut Rng) -> Ev {
     }
     let nh = r.range(1, 5) as usize;
     sprinkle(r, &mut e, nh);
+    if r.chance(1, 3) {
+        vary_lengths(r, &mut e);
+    }
     e
 }
 
@@ -545,6 +923,9 @@ fn ev_seam(r: &mut Rng, a: usize, b: usize, others: bool) -> Ev {
     add_hit(r, &mut e, w2, t2, a2, r2);
     let extra = r.below(3) as usize;
     sprinkle(r, &mut e, extra);
+    if r.chance(1, 3) {
+        vary_lengths(r, &mut e);
+    }
     e
 }
 
@@ -604,6 +985,29 @@ fn ev_full(r: &mut Rng, near_seam: bool) -> Ev {
     }
     let extra = r.below(3) as usize;
     sprinkle(r, &mut e, extra);
+    if r.chance(1, 3) {
+        vary_lengths(r, &mut e);
+    }
+    e
+}
+
+/// pad patterns with near-equal amplitudes (reaches the class centroid_ill_conditioned for eps < ~1e-10)
+fn ev_near(r: &mut Rng) -> Ev {
+    let mut e = new_ev(r);
+    let start = r.below(NW as u64) as usize;
+    let len = r.range(3, 16) as usize;
+    e.runs.push((start, len));
+    let nh = r.range(1, 3) as usize;
+    for _ in 0..nh {
+        let w = (start + r.below(len as u64) as usize) % NW;
+        let t0 = r.range(3, (e.n - 20) as u64) as usize;
+        let a = amp(r, 20.0, 300.0);
+        let row = r.range(1, (NROWS - 2) as u64) as usize;
+        add_hit_near(r, &mut e, w, t0, a, row);
+    }
+    if r.chance(1, 3) {
+        sprinkle(r, &mut e, 1);
+    }
     e
 }
 
@@ -631,7 +1035,9 @@ fn ev_tie(r: &mut Rng, doc: bool) -> Ev {
     let w1 = first + r.below(4) as usize;
     let w2 = first + 4 + r.below(4) as usize;
     e.hits.push((w1, t, amp(r, 80.0, 120.0)));
-    e.hits.push((w2, t, amp(r, 40.0, 70.0)));
+    if !r.chance(1, 4) {
+        e.hits.push((w2, t, amp(r, 40.0, 70.0))); // else: one wire hit for two tied pad hits (one stays unpaired)
+    }
     let a = amp(r, 40.0, 120.0);
     let (f, l) = (a * amp(r, 0.2, 0.6), a * amp(r, 0.2, 0.6));
     let r1 = r.range(1, 280) as usize;
@@ -647,29 +1053,36 @@ fn ev_tie(r: &mut Rng, doc: bool) -> Ev {
 // ------------------------------------------------------------------------------------------------
 // emission
 // ------------------------------------------------------------------------------------------------
-fn emit_av(s: &mut Sink, label: &str, e: &Ev) -> bool {
-    let (tabs, obs, nontrivial, tie) = observe_av(e);
+fn emit_av(s: &mut Sink, label: &str, e: &Ev) -> (bool, f64) {
+    let (tabs, obs, nontrivial, tie, cond_min) = observe_av(e);
     s.put(&format!("av {} {}", e.recipe(), tabs), &obs, label, nontrivial);
-    tie
+    (tie, cond_min)
 }
 
 fn emit_rot(s: &mut Sink, label: &str, e: &Ev, k: usize) {
     let full = e.present().iter().all(|x| *x);
     let tag = if full { "relkf-fullring" } else { "rel-rot" };
-    let o = rel_rot(e, k);
+    let o = if full { rel_rot_fullring(e, k) } else { rel_rot(e, k) };
     let lab = if full { "rot-fullring".to_string() } else { format!("rot-{label}") };
     s.put(&format!("{tag} {} {k}", e.recipe()), &o, &lab, true);
 }
 
-fn emit_mir(s: &mut Sink, label: &str, e: &Ev, tie: bool) {
-    let tag = if tie { "relkf-padtie" } else { "rel-mir" };
-    let o = rel_mir(e);
-    let lab = if tie { "mir-padtie".to_string() } else { format!("mir-{label}") };
+/// the tag is decided by the recognisers: exact pad-amplitude tie first, then ill-conditioned centroid
+fn emit_mir(s: &mut Sink, label: &str, e: &Ev, class: (bool, f64)) {
+    let (tie, cond_min) = class;
+    let ill = cond_min < THETA;
+    let (tag, o, lab) = if tie {
+        ("relkf-padtie", rel_mir_padtie(e), "mir-padtie".to_string())
+    } else if ill {
+        ("relkf-illcond", rel_mir_illcond(e), "mir-illcond".to_string())
+    } else {
+        ("rel-mir", rel_mir(e), format!("mir-{label}"))
+    };
     s.put(&format!("{tag} {}", e.recipe()), &o, &lab, true);
 }
 
 fn emit_all(s: &mut Sink, r: &mut Rng, label: &str, e: &Ev, nrot: usize) {
-    let tie = emit_av(s, label, e);
+    let class = emit_av(s, label, e);
     let ks: Vec<usize> = if nrot >= 31 {
         (1..32).collect()
     } else {
@@ -686,7 +1099,7 @@ fn emit_all(s: &mut Sink, r: &mut Rng, label: &str, e: &Ev, nrot: usize) {
     for k in ks {
         emit_rot(s, label, e, k);
     }
-    emit_mir(s, label, e, tie);
+    emit_mir(s, label, e, class);
 }
 
 pub fn run(tier: &str, seed: u64, s: &mut Sink) {
@@ -709,7 +1122,7 @@ pub fn run(tier: &str, seed: u64, s: &mut Sink) {
         for len in 2..=24usize {
             for a in 1..len {
                 let e = ev_seam(&mut r, a, len - a, (a + len) % 3 == 0);
-                emit_all(s, &mut r, "seam", &e, 3);
+                emit_all(s, &mut r, "seam", &e, nrot);
             }
         }
         for _ in 0..60 {
@@ -732,6 +1145,13 @@ pub fn run(tier: &str, seed: u64, s: &mut Sink) {
         let e = ev_edge(&mut r, i);
         emit_all(s, &mut r, "edge", &e, if thorough { 8 } else { 3 });
     }
+    // near-equal pad amplitudes: eps log-uniform over 13 decades, so about 45 % of these are members of the class
+    // centroid_ill_conditioned (tag relkf-illcond, decided by the recogniser), the rest must hold as rel-mir
+    let n_near = if thorough { 400 } else { 120 };
+    for _ in 0..n_near {
+        let e = ev_near(&mut r);
+        emit_all(s, &mut r, "near", &e, if thorough { 4 } else { 2 });
+    }
     // known-finding classes (skeleton differential always; the relations under their own tags)
     let n_full = if thorough { 12 } else { 4 };
     for i in 0..n_full {
@@ -739,8 +1159,8 @@ pub fn run(tier: &str, seed: u64, s: &mut Sink) {
         if known {
             emit_all(s, &mut r, "fullring", &e, if thorough { 8 } else { 3 });
         } else {
-            emit_av(s, "fullring", &e);
-            emit_mir(s, "fullring", &e, false);
+            let class = emit_av(s, "fullring", &e);
+            emit_mir(s, "fullring", &e, class);
         }
     }
     let n_tie = if thorough { 40 } else { 10 };
@@ -763,15 +1183,20 @@ pub fn observe_line(line: &str) -> Option<String> {
             let e = Ev::parse(toks.get(1)?)?;
             Some(observe_av(&e).1)
         }
-        Some("rel-rot") | Some("relkf-fullring") => {
+        Some(tag @ ("rel-rot" | "relkf-fullring")) => {
             let e = Ev::parse(toks.get(1)?)?;
             let k: usize = toks.get(2)?.parse().ok()?;
-            Some(rel_rot(&e, k))
+            if !(1..32).contains(&k) {
+                return None;
+            }
+            Some(if tag == "rel-rot" { rel_rot(&e, k) } else { rel_rot_fullring(&e, k) })
         }
-        Some("rel-mir") | Some("relkf-padtie") => {
-            let e = Ev::parse(toks.get(1)?)?;
-            Some(rel_mir(&e))
-        }
+        Some("rel-mir") => Some(rel_mir(&Ev::parse(toks.get(1)?)?)),
+        Some("relkf-padtie") => Some(rel_mir_padtie(&Ev::parse(toks.get(1)?)?)),
+        Some("relkf-illcond") => Some(rel_mir_illcond(&Ev::parse(toks.get(1)?)?)),
+        // measurement aid (not generated): conditioning number and mirror discrepancy of an event
+        Some("c13-probe-mir") => Some(probe_mir(&Ev::parse(toks.get(1)?)?)),
+        Some("c13-probe-rot") => Some(probe_rot(&Ev::parse(toks.get(1)?)?, toks.get(2)?.parse().ok()?)),
         _ => None,
     }
 }
